@@ -655,6 +655,10 @@ def _interp_internal_get_weights(oldx, newx):
 # apply interp from weights
 def _interp_internal_from_weight(arr, axis, left, right, lhs_idx, rhs_idx, frac, left_idx, right_idx):
     " numpy ==> numpy "
+    # integer differences are computed in floating point (unsigned types would wrap around)
+    if arr.dtype.kind in ('i', 'u', 'b'):
+        arr = arr.astype(float)
+
     # pre-broadcast dimensions
     if arr.ndim > 1:
         arr = arr.swapaxes(axis, 0) # make the interp axis the first axis
